@@ -257,6 +257,57 @@ def witness_continuations(ctx, path, per_witness):
     return n
 
 
+RACES = [
+    # name, properties, prefix, step A, step B   (notation of bin/mkscript)
+    ("append-vs-newterm", ("C04", "C03"), "E; NT a 1; NT b 1; NT c 1; BL a 1 a,b,c; ED; C a b; W a v1; S a; E", "AP a b", "NT b 2"),
+    ("write-vs-newterm", ("C04", "C01"), "E; NT a 1; NT b 1; NT c 1; BL a 1 a,b,c; ED; C a b; C a c; E", "W a v1", "NT a 2"),
+    ("write-vs-write", ("C08",), "E; NT a 1; NT b 1; NT c 1; BL a 1 a,b,c; ED; C a b; C a c", "W a v1", "W a v2"),
+    ("ack-vs-ack", ("C08", "C07", "C02"), "E; NT a 1; NT b 1; NT c 1; BL a 1 a,b,c; ED; C a b; C a c; W a v1; W a v2; S a; "
+     "AP a b; AP a b; AP a c; AP a c; S b; S c; AK a b", "AK a b", "AK a c"),
+    ("sync-vs-newterm-follower", ("C04", "C03"), "E; NT a 1; NT b 1; NT c 1; BL a 1 a,b,c; ED; C a b; W a v1; S a; AP a b; E", "S b", "NT b 2"),
+]
+
+
+def race_cases(ctx, pid, path):
+    """Pairs of steps that the specification treats as atomic, to be issued concurrently on the real nodes;
+    TLC computes the expectations of both serializations."""
+    sys_path = os.path.join(vf.VERIF, "bin")
+    import importlib.machinery, importlib.util
+    loader = importlib.machinery.SourceFileLoader("mkscript_mod", os.path.join(sys_path, "mkscript"))
+    n = 0
+    with open(path, "w") as out:
+        for name, props, prefix, a, b in RACES:
+            if pid not in props:
+                continue
+            pre, sa, sb = parse_steps(prefix), parse_steps(a), parse_steps(b)
+            ab = script_to_behaviour(ctx, pre + sa + sb, "race-%s-ab" % name)
+            ba = script_to_behaviour(ctx, pre + sb + sa, "race-%s-ba" % name)
+            if len(ab) != len(pre) + 2 or len(ba) < len(pre) + 1:
+                raise vf.Inconclusive("race case %s: the specification does not follow the script (%d/%d, %d)" %
+                                      (name, len(ab), len(pre) + 2, len(ba)))
+            out.write(json.dumps({"name": name, "prefix": ab[:len(pre)], "ab": ab[len(pre):], "ba": ba[len(pre):]}) + "\n")
+            n += 1
+    return n
+
+
+def parse_steps(text):
+    out = []
+    for tok in text.split(";"):
+        p = tok.split()
+        if not p:
+            continue
+        k = p[0]
+        m = {"E": lambda: {"a": "CoElect"}, "ED": lambda: {"a": "CoElected"},
+             "NT": lambda: {"a": "NewTerm", "n": p[1], "t": int(p[2])},
+             "BL": lambda: {"a": "BecomeLeader", "n": p[1], "t": int(p[2]), "fs": sorted(p[3].split(","))},
+             "W": lambda: {"a": "Write", "n": p[1], "v": p[2]}, "S": lambda: {"a": "Sync", "n": p[1]},
+             "C": lambda: {"a": "Connect", "l": p[1], "f": p[2]}, "AP": lambda: {"a": "Append", "l": p[1], "f": p[2]},
+             "AK": lambda: {"a": "Ack", "l": p[1], "f": p[2]}, "RS": lambda: {"a": "Reset", "l": p[1], "f": p[2]},
+             "X": lambda: {"a": "Crash", "n": p[1]}, "R": lambda: {"a": "Restart", "n": p[1]}}
+        out.append(m[k]())
+    return out
+
+
 def run(ctx, pid):
     quick = ctx.tier == "quick"
     ctx.assumptions += [
@@ -307,6 +358,18 @@ def run(ctx, pid):
             other += report(ctx, pid, cres, "wcont")
             reached |= findings_reached(ctx, pid, cruns, cres, "wcont")
         ctx.notes["witness_schedules"] = names
+    # steps that are atomic in the specification, issued concurrently on the real nodes
+    rpath = os.path.join(ctx.scratch, "races.ndjson")
+    if race_cases(ctx, pid, rpath):
+        rout = os.path.join(ctx.scratch, "races.json")
+        ctx.run([binp, "race", "-in", rpath, "-out", rout, "-reps", "25" if quick else "400", "-seed", str(ctx.seed)])
+        rres = json.load(open(rout))
+        ctx.replayed += rres["trials"]
+        ctx.log("race pairs: %d cases, %d concurrent trials, %d not serializable" % (rres["cases"], rres["trials"], len(rres.get("mismatches") or [])))
+        ctx.notes["race_trials"] = rres.get("trials_by_case")
+        for i, mm in enumerate(rres.get("mismatches") or []):
+            p = ctx.save_replay("race-%d.json" % i, mm)
+            ctx.violation("concurrent %s on the real nodes is not equivalent to either order: %s" % (mm["action"], mm["what"][:1500]), p)
     ctx.notes["actions_replayed"] = res.get("actions")
     with open(runs) as f:
         beh = json.loads(f.readline())
